@@ -1,10 +1,45 @@
 import Oracle.AccessUtil
+import MobiusModel.KickGrace
 /-! Oracle handlers for C06: the two account-creation paths and the disconnect decision. -/
 namespace Oracle
 open Mobius Mobius.Spec Mobius.Authz
 
 def banKindStr : BanKind → String
   | .temporary => "temporary" | .permanent => "permanent"
+
+
+/-- One token of a kick-grace history: `Lp` / `Lu` login of a protected / plain user, `C<n>` n logins each followed
+    by its logout, `K<s>` accepted-or-not disconnect request naming the id held by connection serial `s`,
+    `H<s>` connection `s` hangs up (its loop's deferred Disconnect()), `T<j>` the j-th pending timer fires. -/
+def kickTok (w : KickGrace.World) (t : String) : KickGrace.World :=
+  let arg := num (String.ofList (t.toList.drop 1))
+  let idxOf (p : KickGrace.Handle → Bool) (k : Nat) : Option Nat :=
+    let rec go (l : List KickGrace.Handle) (i k : Nat) : Option Nat :=
+      match l with
+      | [] => none
+      | h :: r => if p h then (if k = 0 then some i else go r (i + 1) (k - 1)) else go r (i + 1) k
+    go w.handles 0 k
+  match t.toList.head? with
+  | some 'L' => KickGrace.step w (.login (t == "Lp"))
+  | some 'C' => Nat.rec (motive := fun _ => KickGrace.World) w (fun _ w =>
+      let w1 := KickGrace.step w (.login false)
+      let w2 := KickGrace.step w1 (.disconnect (w1.handles.length - 1))
+      -- the spent connection has no handle left, so nothing can consult its once-flag again: it is dropped here
+      -- (the model's `done` is a list; 65 000 logins would make every later membership test linear)
+      { w2 with done := w.done, closed := w.closed, left := w.left }) arg
+  | some 'K' => match w.reg.clients.find? (·.conn == arg) with
+    | some c => KickGrace.step w (.kick true c.id)
+    | none => w
+  | some 'H' => match idxOf (fun h => h.kind == .loop && h.conn == arg) 0 with
+    | some j => KickGrace.step w (.disconnect j)
+    | none => w
+  | some 'T' => match idxOf (fun h => h.kind == .timer) arg with
+    | some j => KickGrace.step w (.disconnect j)
+    | none => w
+  | _ => w
+
+def kickTable (w : KickGrace.World) : String :=
+  ",".intercalate (w.reg.clients.map fun c => s!"{c.id}:{c.conn}")
 
 def c06Handlers : List (String × Handler) := [
   -- newuser <creator hex> <login exists 0|1> <access field hex> <create fails 0|1>
@@ -22,6 +57,13 @@ def c06Handlers : List (String × Handler) := [
   ("ofbytes", fun (a : List String) => match a with
     | [d] => bitmapStr (AccessBitmap.ofBytes (hexb d))
     | _ => "bad-op"),
+  -- kickrun <tokens…> : the client table (id:connection serial) after the history
+  ("kickrun", fun (a : List String) => kickTable (a.foldl kickTok KickGrace.World.init)),
+  -- kickunheld <which> : a disconnect request naming an id nobody holds: nothing is scheduled, nothing changes
+  ("kickunheld", fun (_ : List String) =>
+    let w := (KickGrace.step (KickGrace.step KickGrace.World.init (.login true)) (.login false))
+    let (w', r) := KickGrace.kick w true 31249
+    s!"alive={r == .panicked && w'.handles == w.handles} protected_ok={w'.reg.clients == w.reg.clients}"),
   -- disconnect <requester hex> <target hex> <option>  →  requester guard, then the target decision
   ("disconnect", fun (a : List String) => match a with
     | [r, t, o] => match banOptOf o with
